@@ -76,8 +76,8 @@ theorem mem_pairBodies {ns : List InNode} {m : List (Nat × Option NodeRow)} {p 
       exact ⟨List.mem_cons_of_mem _ this.1, this.2⟩
 
 /-- what `pairBodies` hands to `add_nodes`: a received body together with the local row of its id -/
-theorem mem_pairs {nodes : List NodeRow} {ns : List InNode} {p : InNode × Option NodeRow}
-    (h : p ∈ pairBodies ns (filterExisting nodes (announce ns []))) :
+theorem mem_pairs {nodes : List NodeRow} {ns : List InNode} {anns : List (Nat × Int × Nat)} {p : InNode × Option NodeRow}
+    (h : p ∈ pairBodies ns (filterExisting nodes anns)) :
     p.1 ∈ ns ∧ p.2 = localRow nodes p.1.row.id := by
   have := mem_pairBodies h
   exact ⟨this.1, mem_filterExisting this.2⟩
@@ -159,7 +159,7 @@ theorem nodeStage_rooms (d : Defects) (s : Inst) (room : Nat) (ns : List InNode)
 
 theorem nodeStage_nodes (d : Defects) (s : Inst) (room : Nat) (ns : List InNode) :
     (nodeStage d s room ns).1.nodes =
-      writeNodes s.nodes ((pairBodies ns (filterExisting s.nodes (announce ns []))).filter (nodeAccepted d s room)) := by
+      writeNodes s.nodes ((pairBodies ns (requested d s room ns)).filter (nodeAccepted d s room)) := by
   simp [nodeStage, addNodes]
 
 /-- a row that is in the table after the row stage and was not before is a received row, accepted
@@ -172,7 +172,7 @@ theorem nodeStage_new {d : Defects} {s : Inst} {room : Nat} {ns : List InNode} {
   rcases mem_writeNodes hx with h | ⟨p, hp, rfl⟩
   · exact absurd h hnew
   · obtain ⟨hp1, hacc⟩ := List.mem_filter.mp hp
-    obtain ⟨hmem, hold⟩ := mem_pairs hp1
+    obtain ⟨hmem, hold⟩ := mem_pairs (anns := gate d s room (announce ns [])) hp1
     refine ⟨p.1, hmem, rfl, nodeAccepted_sound (hsig _ hmem) ?_⟩
     rw [← hold]; exact hacc
 
@@ -238,7 +238,7 @@ theorem nodeStage_removed {d : Defects} {s : Inst} {room : Nat} {ns : List InNod
   rw [nodeStage_nodes] at hgone
   obtain ⟨p, hp, l, hl, hid⟩ := writeNodes_removed hx hgone
   obtain ⟨hp1, hacc⟩ := List.mem_filter.mp hp
-  obtain ⟨hmem, hold⟩ := mem_pairs hp1
+  obtain ⟨hmem, hold⟩ := mem_pairs (anns := gate d s room (announce ns [])) hp1
   have hl' : localRow s.nodes p.1.row.id = some l := by rw [← hold, hl]
   have hpid : p.1.row.id = x.id := by rw [← (localRow_some hl').2, hid]
   have hlx : localRow s.nodes p.1.row.id = some x := by rw [hpid]; exact localRow_of_mem hn hx
@@ -324,8 +324,9 @@ theorem writeNodes_nodup {ps : List (InNode × Option NodeRow)} {nodes : List No
         · exact hq'.1 hqn h
         · exact hnd.1 (List.mem_map.mpr ⟨q, hq, h⟩)
 
-theorem goodPairs_pairs (nodes : List NodeRow) (ns : List InNode) (f : InNode × Option NodeRow → Bool) :
-    GoodPairs nodes ((pairBodies ns (filterExisting nodes (announce ns []))).filter f) := by
+theorem goodPairs_pairs (nodes : List NodeRow) (ns : List InNode) (anns : List (Nat × Int × Nat))
+    (f : InNode × Option NodeRow → Bool) :
+    GoodPairs nodes ((pairBodies ns (filterExisting nodes anns)).filter f) := by
   constructor
   · exact List.Nodup.sublist (List.Sublist.map _ List.filter_sublist) (pairBodies_nodup _ _)
   · intro p hp
@@ -342,7 +343,7 @@ theorem goodPairs_pairs (nodes : List NodeRow) (ns : List InNode) (f : InNode ×
 theorem nodeStage_nodup {d : Defects} {s : Inst} {room : Nat} {ns : List InNode}
     (hn : NodupIds s.nodes) : NodupIds (nodeStage d s room ns).1.nodes := by
   rw [nodeStage_nodes]
-  exact writeNodes_nodup hn (goodPairs_pairs _ _ _)
+  exact writeNodes_nodup hn (goodPairs_pairs _ _ _ _)
 
 /-! ### batch independence of the row stage -/
 
@@ -373,71 +374,93 @@ theorem announce_nodup {ns : List InNode} {acc : List (Nat × Int × Nat)}
         intro he
         exact hd.1 (List.mem_map.mpr ⟨m, hm, he.symm⟩)
 
-/-- the pair `add_nodes` receives for a row, if it passes `filter_existing` -/
-def pairOf (nodes : List NodeRow) (n : InNode) : Option (InNode × Option NodeRow) :=
-  (filterOne nodes (annOf n)).map fun e => (n, e.2)
+/-- `filter_existing` behind the gate, for one announced id -/
+def filterOneG (d : Defects) (s : Inst) (room : Nat) (a : Nat × Int × Nat) : Option (Nat × Option NodeRow) :=
+  if d.announcedDeletedRequested || !deletedIn s room a.1 then filterOne s.nodes a else none
 
-theorem pairBodies_filterMap {nodes : List NodeRow} {ns : List InNode} (hd : (ns.map (·.row.id)).Nodup) :
-    pairBodies ns (filterExisting nodes (ns.map annOf)) = ns.filterMap (pairOf nodes) := by
+theorem filterOneG_old {d : Defects} {s : Inst} {room : Nat} {a : Nat × Int × Nat} {e : Nat × Option NodeRow}
+    (h : filterOneG d s room a = some e) : e.1 = a.1 ∧ e.2 = localRow s.nodes a.1 := by
+  unfold filterOneG at h
+  split at h
+  · exact filterOne_old h
+  · cases h
+
+/-- gate then `filter_existing` = one pass with the gated `filterOne` -/
+theorem filterExisting_gate (d : Defects) (s : Inst) (room : Nat) (anns : List (Nat × Int × Nat)) :
+    filterExisting s.nodes (gate d s room anns) = anns.filterMap (filterOneG d s room) := by
+  unfold filterExisting gate filterOneG
+  cases hd : d.announcedDeletedRequested
+  · simp only [Bool.false_eq_true, if_false, Bool.false_or]
+    induction anns with
+    | nil => rfl
+    | cons a t ih =>
+      simp only [List.filter_cons, List.filterMap_cons]
+      cases hg : !deletedIn s room a.1
+      · simp only [Bool.false_eq_true, if_false]; exact ih
+      · simp only [if_true, List.filterMap_cons]; rw [ih]
+  · simp
+
+/-- the pair `add_nodes` receives for a row, if it passes the gate and `filter_existing` -/
+def pairOf (d : Defects) (s : Inst) (room : Nat) (n : InNode) : Option (InNode × Option NodeRow) :=
+  (filterOneG d s room (annOf n)).map fun e => (n, e.2)
+
+theorem pairBodies_filterMap {d : Defects} {s : Inst} {room : Nat} {ns : List InNode} (hd : (ns.map (·.row.id)).Nodup) :
+    pairBodies ns ((ns.map annOf).filterMap (filterOneG d s room)) = ns.filterMap (pairOf d s room) := by
   induction ns with
   | nil => simp [pairBodies]
   | cons n rest ih =>
     simp only [List.map_cons, List.nodup_cons] at hd
-    have hrest : ∀ e ∈ filterExisting nodes (rest.map annOf), e.1 ≠ n.row.id := by
+    have hrest : ∀ e ∈ (rest.map annOf).filterMap (filterOneG d s room), e.1 ≠ n.row.id := by
       intro e he hid
-      unfold filterExisting at he
       obtain ⟨a, ha, hf⟩ := List.mem_filterMap.mp he
       obtain ⟨m, hm, rfl⟩ := List.mem_map.mp ha
-      have := (filterOne_old hf).1
+      have := (filterOneG_old hf).1
       apply hd.1
       exact List.mem_map.mpr ⟨m, hm, by rw [← hid, this]; rfl⟩
-    have hfilt : (filterExisting nodes (rest.map annOf)).filter (fun e => decide (e.1 ≠ n.row.id)) =
-        filterExisting nodes (rest.map annOf) := by
+    have hfilt : ((rest.map annOf).filterMap (filterOneG d s room)).filter (fun e => decide (e.1 ≠ n.row.id)) =
+        (rest.map annOf).filterMap (filterOneG d s room) := by
       rw [List.filter_eq_self]
       intro e he
       simpa using hrest e he
-    have hfind : (filterExisting nodes (rest.map annOf)).find? (fun e => decide (e.1 = n.row.id)) = none := by
+    have hfind : ((rest.map annOf).filterMap (filterOneG d s room)).find? (fun e => decide (e.1 = n.row.id)) = none := by
       rw [List.find?_eq_none]
       intro e he
       simpa using hrest e he
     unfold pairBodies
     simp only [List.filterMap_cons, List.map_cons]
-    cases hf : filterOne nodes (annOf n) with
+    cases hf : filterOneG d s room (annOf n) with
     | none =>
-      have hm : filterExisting nodes (annOf n :: rest.map annOf) = filterExisting nodes (rest.map annOf) := by
-        simp [filterExisting, hf]
-      rw [hm]
-      have ht : takeNti (filterExisting nodes (rest.map annOf)) n.row.id = none := by
+      have ht : takeNti ((rest.map annOf).filterMap (filterOneG d s room)) n.row.id = none := by
         unfold takeNti; rw [hfind]
-      rw [ht]
+      simp only [ht]
       simp only [pairOf, hf, Option.map_none]
       exact ih hd.2
     | some e =>
-      have he1 : e.1 = n.row.id := (filterOne_old hf).1
-      have hm : filterExisting nodes (annOf n :: rest.map annOf) = e :: filterExisting nodes (rest.map annOf) := by
-        simp [filterExisting, hf]
-      rw [hm]
-      have ht : takeNti (e :: filterExisting nodes (rest.map annOf)) n.row.id =
-          some (e.2, filterExisting nodes (rest.map annOf)) := by
+      have he1 : e.1 = n.row.id := (filterOneG_old hf).1
+      have ht : takeNti (e :: (rest.map annOf).filterMap (filterOneG d s room)) n.row.id =
+          some (e.2, (rest.map annOf).filterMap (filterOneG d s room)) := by
         unfold takeNti
         simp only [List.find?_cons, he1, decide_true, List.filter_cons, ne_eq, not_true_eq_false, decide_false,
           Bool.false_eq_true, if_false]
         rw [hfilt]
-      rw [ht]
+      simp only [ht]
       simp only [pairOf, hf, Option.map_some]
       rw [ih hd.2]
 
 theorem pairOf_verdict {d : Defects} {s : Inst} {room : Nat} (n : InNode) :
-    (pairOf s.nodes n).filter (nodeAccepted d s room) =
+    (pairOf d s room n).filter (nodeAccepted d s room) =
       if nodeVerdict d s room n then some (n, localRow s.nodes n.row.id) else none := by
-  unfold pairOf nodeVerdict
-  cases hf : filterOne s.nodes (annOf n) with
-  | none => simp [annOf] at hf ⊢; simp [hf]
-  | some e =>
-    have he := (filterOne_old hf).2
-    simp only [annOf] at hf he
-    simp only [hf, Option.map_some, Option.filter]
-    split <;> simp_all
+  unfold pairOf nodeVerdict filterOneG
+  simp only [annOf]
+  by_cases hg : (d.announcedDeletedRequested || !deletedIn s room n.row.id) = true
+  case neg => simp [hg]
+  · simp only [hg, if_true, Bool.true_and]
+    cases hf : filterOne s.nodes (n.row.id, n.annDate, n.annSg) with
+    | none => simp
+    | some e =>
+      have he := (filterOne_old hf).2
+      simp only [Option.map_some, Option.filter]
+      split <;> simp_all
 
 /-- **batch independence (rows).** When no two received rows share an id, the row stage writes
     exactly the rows whose own verdict — a function of the row and of the tables *before* the batch,
@@ -446,7 +469,9 @@ theorem nodeStage_eq_verdicts {d : Defects} {s : Inst} {room : Nat} {ns : List I
     (hd : (ns.map (·.row.id)).Nodup) :
     (nodeStage d s room ns).1.nodes =
       writeNodes s.nodes ((ns.filter (nodeVerdict d s room)).map fun n => (n, localRow s.nodes n.row.id)) := by
-  rw [nodeStage_nodes, announce_nodup hd (by simp), List.nil_append, pairBodies_filterMap hd]
+  rw [nodeStage_nodes]
+  unfold requested
+  rw [filterExisting_gate, announce_nodup hd (by simp), List.nil_append, pairBodies_filterMap hd]
   congr 1
   clear hd
   induction ns with
@@ -454,7 +479,7 @@ theorem nodeStage_eq_verdicts {d : Defects} {s : Inst} {room : Nat} {ns : List I
   | cons n rest ih =>
     simp only [List.filterMap_cons, List.filter_cons]
     have := pairOf_verdict (d := d) (s := s) (room := room) n
-    cases hp : pairOf s.nodes n with
+    cases hp : pairOf d s room n with
     | none =>
       rw [hp] at this
       simp only [Option.filter] at this
@@ -481,6 +506,24 @@ theorem nodeStage_eq_verdicts {d : Defects} {s : Inst} {room : Nat} {ns : List I
         rw [hv] at this
         simp only [if_true, Option.some.injEq] at this
         simp [hv, ih, this]
+
+/-- a row that the row stage writes passed the gate: once the gate is in place, its id carries no node deletion
+    record of the synchronised room -/
+theorem nodeStage_new_gate {d : Defects} {s : Inst} {room : Nat} {ns : List InNode} {x : NodeRow}
+    (hd : d.announcedDeletedRequested = false)
+    (hx : x ∈ (nodeStage d s room ns).1.nodes) (hnew : x ∉ s.nodes) : deletedIn s room x.id = false := by
+  rw [nodeStage_nodes] at hx
+  rcases mem_writeNodes hx with h | ⟨p, hp, rfl⟩
+  · exact absurd h hnew
+  · have hm := (mem_pairBodies (List.mem_filter.mp hp).1).2
+    unfold requested at hm
+    rw [filterExisting_gate] at hm
+    obtain ⟨a, _, ha⟩ := List.mem_filterMap.mp hm
+    have hid : a.1 = p.1.row.id := by have := (filterOneG_old ha).1; simpa using this.symm
+    unfold filterOneG at ha
+    split at ha
+    · next hg => rw [hd, hid] at hg; simpa using hg
+    · cases ha
 
 /-! ### the reference stage -/
 
@@ -602,16 +645,40 @@ theorem addEdgesLoop_removed {d : Defects} {s : Inst} {room : Nat} {es : List In
 
 /-! ### deletion records -/
 
-theorem mem_dedupDel {recs : List InNodeDel} {r : InNodeDel} (h : r ∈ dedupDel recs) : r ∈ recs := by
-  induction recs with
-  | nil => simp [dedupDel] at h
+theorem mem_splitFirst {recs : List InNodeDel} {seen : List Nat} {r : InNodeDel} :
+    (r ∈ (splitFirst recs seen).1 → r ∈ recs) ∧ (r ∈ (splitFirst recs seen).2 → r ∈ recs) := by
+  induction recs generalizing seen with
+  | nil => simp [splitFirst]
   | cons x rest ih =>
-    unfold dedupDel at h
-    split at h
-    · exact List.mem_cons_of_mem _ (ih h)
-    · rcases List.mem_cons.mp h with h | h
+    unfold splitFirst
+    split
+    · refine ⟨fun h => List.mem_cons_of_mem _ (ih.1 h), fun h => ?_⟩
+      rcases List.mem_cons.mp h with h | h
       · subst h; exact List.mem_cons_self
-      · exact List.mem_cons_of_mem _ (ih h)
+      · exact List.mem_cons_of_mem _ (ih.2 h)
+    · refine ⟨fun h => ?_, fun h => List.mem_cons_of_mem _ (ih.2 h)⟩
+      rcases List.mem_cons.mp h with h | h
+      · subst h; exact List.mem_cons_self
+      · exact List.mem_cons_of_mem _ (ih.1 h)
+
+/-- records with pairwise distinct ids (none seen before) travel in one message -/
+theorem splitFirst_nodup {recs : List InNodeDel} {seen : List Nat} (hd : (recs.map (·.entry.id)).Nodup)
+    (hs : ∀ r ∈ recs, r.entry.id ∉ seen) : splitFirst recs seen = (recs, []) := by
+  induction recs generalizing seen with
+  | nil => rfl
+  | cons x rest ih =>
+    simp only [List.map_cons, List.nodup_cons] at hd
+    unfold splitFirst
+    have hx : seen.contains x.entry.id = false := by
+      cases h : seen.contains x.entry.id
+      · rfl
+      · exact absurd (List.contains_iff_mem.mp h) (hs x List.mem_cons_self)
+    simp only [hx, Bool.false_eq_true, if_false]
+    rw [ih hd.2]
+    intro r hr hm
+    rcases List.mem_cons.mp hm with h | h
+    · exact hd.1 (List.mem_map.mpr ⟨r, hr, h⟩)
+    · exact hs r (List.mem_cons_of_mem _ hr) h
 
 theorem nodeDelAccepted_sound {d : Defects} {s : Inst} {room : Nat} {r : InNodeDel}
     (hs : r.sigOk = true) (hroom : d.delRoomUnchecked = false → r.entry.room = room)
@@ -660,41 +727,108 @@ theorem foldl_applyNodeDel {L : List InNodeDel} {s : Inst} :
         · exact Or.inr ⟨r, List.mem_cons_self, h.symm⟩
       · exact Or.inr ⟨q, List.mem_cons_of_mem _ hq, rfl⟩
 
-/-- the node deletion stage: rows only disappear, and only under an accepted record naming their
+theorem foldl_applyNodeDel_sublist {L : List InNodeDel} {s : Inst} :
+    (L.foldl (fun st r => applyNodeDel st r.entry) s).nodes.Sublist s.nodes := by
+  induction L generalizing s with
+  | nil => exact List.Sublist.refl _
+  | cons r rest ih =>
+    simp only [List.foldl_cons]
+    exact List.Sublist.trans ih (by simp only [applyNodeDel]; exact List.filter_sublist)
+
+/-- one message of node deletion records: rows only disappear, and only under an accepted record naming their
     room and id; the log only gains accepted records; nothing else changes -/
-theorem deleteNodes_sound {d : Defects} {s : Inst} {room : Nat} {recs : List InNodeDel}
+theorem deleteBatch_sound {d : Defects} {s : Inst} {room : Nat} {recs : List InNodeDel}
     (hsig : ∀ r ∈ recs, r.sigOk = true) (hroom : ∀ r ∈ recs, d.delRoomUnchecked = false → r.entry.room = room) :
-    let s' := deleteNodes d s recs
+    let s' := deleteBatch d s recs
     s'.rooms = s.rooms ∧ s'.edges = s.edges ∧ s'.edgeLog = s.edgeLog ∧
-    (∀ x ∈ s'.nodes, x ∈ s.nodes) ∧
+    s'.nodes.Sublist s.nodes ∧
     (∀ x ∈ s.nodes, x ∉ s'.nodes → ∃ r ∈ recs, x.room = some r.entry.room ∧ x.id = r.entry.id ∧ NodeDelOkD d s room r) ∧
     (∀ t ∈ s'.nodeLog, t ∉ s.nodeLog → ∃ r ∈ recs, r.entry = t ∧ NodeDelOkD d s room r) := by
   intro s'
   obtain ⟨h1, h2, h3, h4, h5⟩ := foldl_applyNodeDel
-    (L := (dedupDel recs).filter fun r => nodeDelAccepted d s r.entry) (s := s)
-  have hacc : ∀ r ∈ (dedupDel recs).filter (fun r => nodeDelAccepted d s r.entry),
+    (L := recs.filter fun r => nodeDelAccepted d s r.entry) (s := s)
+  have hacc : ∀ r ∈ recs.filter (fun r => nodeDelAccepted d s r.entry),
       r ∈ recs ∧ NodeDelOkD d s room r := by
     intro r hr
     obtain ⟨hr1, hr2⟩ := List.mem_filter.mp hr
-    have := mem_dedupDel hr1
-    exact ⟨this, nodeDelAccepted_sound (hsig r this) (hroom r this) hr2⟩
-  refine ⟨h1, h2, h3, fun x hx => ((h4 x).mp hx).1, ?_, ?_⟩
+    exact ⟨hr1, nodeDelAccepted_sound (hsig r hr1) (hroom r hr1) hr2⟩
+  refine ⟨h1, h2, h3, foldl_applyNodeDel_sublist, ?_, ?_⟩
   · intro x hx hgone
-    have : ¬ ∀ r ∈ (dedupDel recs).filter (fun r => nodeDelAccepted d s r.entry),
-        ¬(x.room = some r.entry.room ∧ x.id = r.entry.id) := fun hall => hgone ((h4 x).mpr ⟨hx, hall⟩)
-    have : ∃ r ∈ (dedupDel recs).filter (fun r => nodeDelAccepted d s r.entry),
+    have : ∃ r ∈ recs.filter (fun r => nodeDelAccepted d s r.entry),
         x.room = some r.entry.room ∧ x.id = r.entry.id := by
       apply Classical.byContradiction
       intro hne
-      apply this
-      intro r hr hm
-      exact hne ⟨r, hr, hm⟩
+      apply hgone
+      exact (h4 x).mpr ⟨hx, fun r hr hm => hne ⟨r, hr, hm⟩⟩
     obtain ⟨r, hr, hm⟩ := this
     exact ⟨r, (hacc r hr).1, hm.1, hm.2, (hacc r hr).2⟩
   · intro t ht hnew
     rcases h5 t ht with h | ⟨r, hr, rfl⟩
     · exact absurd h hnew
     · exact ⟨r, (hacc r hr).1, rfl, (hacc r hr).2⟩
+
+/-- the tables at the turn of a record of an answer: the room definitions of the stage, and rows of the stage
+    (some may already have been deleted by earlier records of the same answer) -/
+def Turn (s si : Inst) : Prop := si.rooms = s.rooms ∧ si.nodes.Sublist s.nodes
+
+theorem Turn.refl (s : Inst) : Turn s s := ⟨rfl, List.Sublist.refl _⟩
+
+/-- the loop of `delete_nodes`: every row that disappears and every log entry that appears is due to a record that was
+    accepted against the tables as they were at its turn -/
+theorem deleteNodesLoop_sound {d : Defects} {room : Nat} (fuel : Nat) {s : Inst} {recs : List InNodeDel}
+    (hsig : ∀ r ∈ recs, r.sigOk = true) (hroom : ∀ r ∈ recs, d.delRoomUnchecked = false → r.entry.room = room) :
+    let s' := deleteNodesLoop d fuel s recs
+    s'.rooms = s.rooms ∧ s'.edges = s.edges ∧ s'.edgeLog = s.edgeLog ∧
+    s'.nodes.Sublist s.nodes ∧
+    (∀ x ∈ s.nodes, x ∉ s'.nodes → ∃ r ∈ recs, x.room = some r.entry.room ∧ x.id = r.entry.id ∧
+      ∃ si, Turn s si ∧ x ∈ si.nodes ∧ NodeDelOkD d si room r) ∧
+    (∀ t ∈ s'.nodeLog, t ∉ s.nodeLog → ∃ r ∈ recs, r.entry = t ∧ ∃ si, Turn s si ∧ NodeDelOkD d si room r) := by
+  induction fuel generalizing s recs with
+  | zero =>
+    show (s.rooms = s.rooms ∧ s.edges = s.edges ∧ s.edgeLog = s.edgeLog ∧ s.nodes.Sublist s.nodes ∧ _ ∧ _)
+    exact ⟨rfl, rfl, rfl, List.Sublist.refl _, fun x hx hg => absurd hx hg, fun t ht hn => absurd ht hn⟩
+  | succ fuel ih =>
+    have hb1 : ∀ r ∈ (splitFirst recs []).1, r ∈ recs := fun r hr => mem_splitFirst.1 hr
+    have hb2 : ∀ r ∈ (splitFirst recs []).2, r ∈ recs := fun r hr => mem_splitFirst.2 hr
+    obtain ⟨b1, b2, b3, b4, b5, b6⟩ := deleteBatch_sound (d := d) (s := s) (room := room)
+      (recs := (splitFirst recs []).1) (fun r hr => hsig r (hb1 r hr)) (fun r hr => hroom r (hb1 r hr))
+    simp only [deleteNodesLoop]
+    split
+    · refine ⟨b1, b2, b3, b4, ?_, ?_⟩
+      · intro x hx hg
+        obtain ⟨r, hr, e1, e2, hok⟩ := b5 x hx hg
+        exact ⟨r, hb1 r hr, e1, e2, s, Turn.refl s, hx, hok⟩
+      · intro t ht hn
+        obtain ⟨r, hr, e, hok⟩ := b6 t ht hn
+        exact ⟨r, hb1 r hr, e, s, Turn.refl s, hok⟩
+    · obtain ⟨c1, c2, c3, c4, c5, c6⟩ := ih (s := deleteBatch d s (splitFirst recs []).1)
+        (recs := (splitFirst recs []).2) (fun r hr => hsig r (hb2 r hr)) (fun r hr => hroom r (hb2 r hr))
+      have lift : ∀ si, Turn (deleteBatch d s (splitFirst recs []).1) si → Turn s si :=
+        fun si h => ⟨h.1.trans b1, h.2.trans b4⟩
+      refine ⟨c1.trans b1, c2.trans b2, c3.trans b3, c4.trans b4, ?_, ?_⟩
+      · intro x hx hg
+        by_cases h1 : x ∈ (deleteBatch d s (splitFirst recs []).1).nodes
+        · obtain ⟨r, hr, e1, e2, si, ht, hxi, hok⟩ := c5 x h1 hg
+          exact ⟨r, hb2 r hr, e1, e2, si, lift si ht, hxi, hok⟩
+        · obtain ⟨r, hr, e1, e2, hok⟩ := b5 x hx h1
+          exact ⟨r, hb1 r hr, e1, e2, s, Turn.refl s, hx, hok⟩
+      · intro t ht hn
+        by_cases h1 : t ∈ (deleteBatch d s (splitFirst recs []).1).nodeLog
+        · obtain ⟨r, hr, e, hok⟩ := b6 t h1 hn
+          exact ⟨r, hb1 r hr, e, s, Turn.refl s, hok⟩
+        · obtain ⟨r, hr, e, si, hti, hok⟩ := c6 t ht h1
+          exact ⟨r, hb2 r hr, e, si, lift si hti, hok⟩
+
+/-- the node deletion stage -/
+theorem deleteNodes_sound {d : Defects} {s : Inst} {room : Nat} {recs : List InNodeDel}
+    (hsig : ∀ r ∈ recs, r.sigOk = true) (hroom : ∀ r ∈ recs, d.delRoomUnchecked = false → r.entry.room = room) :
+    let s' := deleteNodes d s recs
+    s'.rooms = s.rooms ∧ s'.edges = s.edges ∧ s'.edgeLog = s.edgeLog ∧
+    s'.nodes.Sublist s.nodes ∧
+    (∀ x ∈ s.nodes, x ∉ s'.nodes → ∃ r ∈ recs, x.room = some r.entry.room ∧ x.id = r.entry.id ∧
+      ∃ si, Turn s si ∧ x ∈ si.nodes ∧ NodeDelOkD d si room r) ∧
+    (∀ t ∈ s'.nodeLog, t ∉ s.nodeLog → ∃ r ∈ recs, r.entry = t ∧ ∃ si, Turn s si ∧ NodeDelOkD d si room r) :=
+  deleteNodesLoop_sound recs.length hsig hroom
 
 theorem edgeDelAccepted_sound {d : Defects} {s : Inst} {room : Nat} {r : InEdgeDel}
     (hs : r.sigOk = true) (hroom : d.delRoomUnchecked = false → r.entry.room = room)
@@ -796,21 +930,44 @@ theorem deleteEdges_fields (d : Defects) (s : Inst) (recs : List InEdgeDel) :
 theorem deleteNodes_fields (d : Defects) (s : Inst) (recs : List InNodeDel) :
     (deleteNodes d s recs).rooms = s.rooms ∧ (deleteNodes d s recs).edges = s.edges ∧
     (deleteNodes d s recs).edgeLog = s.edgeLog := by
-  obtain ⟨h1, h2, h3, _, _⟩ := foldl_applyNodeDel
-    (L := (dedupDel recs).filter fun r => nodeDelAccepted d s r.entry) (s := s)
-  exact ⟨h1, h2, h3⟩
+  -- signatures and rooms play no part in what a stage leaves untouched: use the room each record names
+  have hloop : ∀ (fuel : Nat) (s : Inst) (recs : List InNodeDel),
+      (deleteNodesLoop d fuel s recs).rooms = s.rooms ∧ (deleteNodesLoop d fuel s recs).edges = s.edges ∧
+      (deleteNodesLoop d fuel s recs).edgeLog = s.edgeLog ∧ (deleteNodesLoop d fuel s recs).nodes.Sublist s.nodes := by
+    intro fuel
+    induction fuel with
+    | zero => intro s recs; exact ⟨rfl, rfl, rfl, List.Sublist.refl _⟩
+    | succ fuel ih =>
+      intro s recs
+      obtain ⟨h1, h2, h3, _, _⟩ := foldl_applyNodeDel
+        (L := (splitFirst recs []).1.filter fun r => nodeDelAccepted d s r.entry) (s := s)
+      have h4 : (deleteBatch d s (splitFirst recs []).1).nodes.Sublist s.nodes := foldl_applyNodeDel_sublist
+      simp only [deleteNodesLoop]
+      split
+      · exact ⟨h1, h2, h3, h4⟩
+      · obtain ⟨c1, c2, c3, c4⟩ := ih (deleteBatch d s (splitFirst recs []).1) (splitFirst recs []).2
+        exact ⟨c1.trans h1, c2.trans h2, c3.trans h3, c4.trans h4⟩
+  obtain ⟨a, b, c, _⟩ := hloop recs.length s recs
+  exact ⟨a, b, c⟩
 
-theorem foldl_applyNodeDel_sublist {L : List InNodeDel} {s : Inst} :
-    (L.foldl (fun st r => applyNodeDel st r.entry) s).nodes.Sublist s.nodes := by
-  induction L generalizing s with
-  | nil => exact List.Sublist.refl _
-  | cons r rest ih =>
-    simp only [List.foldl_cons]
-    exact List.Sublist.trans ih (by simp only [applyNodeDel]; exact List.filter_sublist)
+theorem deleteNodes_sublist (d : Defects) (s : Inst) (recs : List InNodeDel) :
+    (deleteNodes d s recs).nodes.Sublist s.nodes := by
+  have hloop : ∀ (fuel : Nat) (s : Inst) (recs : List InNodeDel), (deleteNodesLoop d fuel s recs).nodes.Sublist s.nodes := by
+    intro fuel
+    induction fuel with
+    | zero => intro s recs; exact List.Sublist.refl _
+    | succ fuel ih =>
+      intro s recs
+      have h4 : (deleteBatch d s (splitFirst recs []).1).nodes.Sublist s.nodes := foldl_applyNodeDel_sublist
+      simp only [deleteNodesLoop]
+      split
+      · exact h4
+      · exact (ih _ _).trans h4
+  exact hloop _ _ _
 
 theorem deleteNodes_nodup {d : Defects} {s : Inst} {recs : List InNodeDel}
     (hn : NodupIds s.nodes) : NodupIds (deleteNodes d s recs).nodes :=
-  List.Nodup.sublist (List.Sublist.map _ foldl_applyNodeDel_sublist) hn
+  List.Nodup.sublist (List.Sublist.map _ (deleteNodes_sublist d s recs)) hn
 
 theorem edgeStage_fields (d : Defects) (s : Inst) (room : Nat) (es : List InEdge) :
     (edgeStage d s room es).1.rooms = s.rooms ∧ (edgeStage d s room es).1.nodes = s.nodes ∧
